@@ -493,8 +493,16 @@ def r11_11(ctx) -> None:
     for st in stores:
         if st.value is not None:
             texts |= set(resolve_all(eng, init, st.value))
-    allowed = {"{}", f"{{**{ov}, **{pm}, 'kty': {sn}.key_type}}", f"{{**{ov}, 'kty': {sn}.key_type}}"}
-    ok = bool(stores) and texts <= allowed and len(texts) >= 2
+    allowed = {"{}", f"{{**{ov}, **{pm}, 'kty': {sn}.key_type}}", f"{{**{ov}, 'kty': {sn}.key_type}}", f"{{**{ov}, **({pm} or {{}}), 'kty': {sn}.key_type}}"}
+    ok = bool(stores) and texts <= allowed and len(texts) >= 2 and any(f"**{pm}" in t_ or f"**({pm}" in t_ for t_ in texts)
+    if ok:
+        # whenever the original value is a dict, a non-empty view is stored (caller parameters never divert a JWK to the lazy path)
+        cfg = cfg_of(init)
+        dict_tests = [t_ for t_ in cfg.nodes if t_.kind == "test" and isinstance(t_.ast, ast.Call) and norm(t_.ast.func) == "isinstance" and len(t_.ast.args) == 2
+                      and norm(t_.ast.args[0]) == ov and norm(t_.ast.args[1]) == "dict"]
+        full = [cfg.node_of(st) for st in stores if st.value is not None and not (isinstance(st.value, ast.Dict) and not st.value.keys)]
+        full = [x for x in full if x is not None]
+        ok = bool(dict_tests) and bool(full) and cfg.must_pass(cfg.entry, cfg.exit, full, edge_filter=lambda a, b, lab, _d=dict_tests: not (a in _d and lab == "false"))
     ctx.check(ok, "R11.11", init, init.node, init.short, f"the JWK view kept for a key built from a dict is not exactly the given members (+ parameters, kty): {sorted(texts - allowed)}",
               "{**original_value, **parameters, 'kty': key_type}", construct="BaseKey dict view from a JWK")
 
@@ -557,5 +565,7 @@ def run(ctx) -> None:
     ctx.guard(r11_10)
     ctx.guard(r11_11)
     ctx.guard(r11_12)
+    from .c12 import r12_2
+    ctx.guard_as("R11.13", r12_2)  # "importing a JWK then exporting it returns the members that were given": exports never alias the key's dict
     ctx.assume("pyca serialisation (PEM / DER / numbers) is faithful and validates points and RSA parameters")
     ctx.note("undecided remainder: equality of key material across PEM / DER / JWK for every key value")
